@@ -6,7 +6,7 @@ import sys
 from . import extract, mir
 
 
-def dump_body(b, out=sys.stdout):
+def dump_body(b, out=sys.stdout, with_idx=True):
     w = out.write
     w("=== %s\n    key=%s  %s  vis=%s\n" % (b.path, b.key, b.where(), b.vis))
     for bb in sorted(b.reachable_blocks()):
@@ -19,8 +19,8 @@ def dump_body(b, out=sys.stdout):
             p = st["p"]
             interesting = p["pr"] or b.locals[p["l"]]["user"] or p["l"] == 0 or not b.inlinable(p["l"])
             if interesting:
-                w("    [%d] %s = %s\n" % (i, mir.show(b.e_place(p)) if p["pr"] else b.local_name(p["l"]),
-                                         mir.show(b.e_rvalue(st["r"]))))
+                w("    %s%s = %s\n" % ("[%d] " % i if with_idx else "", mir.show(b.e_place(p)) if p["pr"] else b.local_name(p["l"]),
+                                      mir.show(b.e_rvalue(st["r"]))))
         t = blk["term"]
         k = t["t"]
         if k == "call":
